@@ -108,6 +108,8 @@ func (g *ExecutionGraph) cycleDfs(t string, visited map[string]bool) error {
 			return err
 		}
 	}
+	// t is no longer on the current path: reaching it again along another path is not a cycle
+	visited[t] = false
 
 	return nil
 }
